@@ -1,25 +1,35 @@
 #!/bin/sh
-# Regenerates coq/Gen/Funcs.v from the Go source under $VERIF_REPO (default /repo); see DESIGN.md A.8
-# and tools/gen_funcs/main.go.  Idempotent: the file is replaced only when its content changes, so
-# that `make` rebuilds the tie files (coq/Proofs/Funcs_tie_*.v) only after a change of a translated body.
-# If the generator itself cannot run, Funcs.v is removed: the tie files then fail to compile,
+# Regenerates coq/Gen/Funcs.v and coq/Gen/FuncsCarto.v from the Go source under $VERIF_REPO (default
+# /repo); see DESIGN.md A.8 and tools/gen_funcs/main.go.  Funcs.v: the kernel functions of rtree and
+# geom over the carrier of coq/Base/FOps.v; FuncsCarto.v: the nine projections of package carto over the
+# carrier of coq/Base/FOpsT.v (tie: coq/Proofs/Funcs_tie_Carto.v, property C19).
+# Idempotent: a file is replaced only when its content changes, so that `make` rebuilds the tie files
+# (coq/Proofs/Funcs_tie_*.v) only after a change of a translated body.
+# If the generator itself cannot run, both files are removed: the tie files then fail to compile,
 # which the orchestrator reports as a broken proof obligation (never a stale, silently passing tie).
+# Output paths can be overridden (scratch runs): GEN_FUNCS_OUT, GEN_FUNCS_CARTO_OUT.
 set -u
 VERIF=$(cd "$(dirname "$0")/.." && pwd)
 REPO=${VERIF_REPO:-/repo}
 OUT=${GEN_FUNCS_OUT:-$VERIF/coq/Gen/Funcs.v}
+OUTC=${GEN_FUNCS_CARTO_OUT:-$VERIF/coq/Gen/FuncsCarto.v}
 export GOFLAGS=-mod=mod GOPROXY=off GOSUMDB=off GOTOOLCHAIN=local
-mkdir -p "$(dirname "$OUT")"
+mkdir -p "$(dirname "$OUT")" "$(dirname "$OUTC")"
 TMP=$(mktemp "${TMPDIR:-/tmp}/Funcs.XXXXXX") || exit 2
-trap 'rm -f "$TMP"' EXIT
-if ! (cd "$VERIF/tools/gen_funcs" && go run . -repo "$REPO" -o "$TMP"); then
-    echo "gen_funcs.sh: generator failed; removing $OUT" >&2
-    rm -f "$OUT"
+TMPC=$(mktemp "${TMPDIR:-/tmp}/FuncsCarto.XXXXXX") || exit 2
+trap 'rm -f "$TMP" "$TMPC"' EXIT
+if ! (cd "$VERIF/tools/gen_funcs" && go run . -repo "$REPO" -o "$TMP" -ocarto "$TMPC"); then
+    echo "gen_funcs.sh: generator failed; removing $OUT and $OUTC" >&2
+    rm -f "$OUT" "$OUTC"
     exit 2
 fi
-if [ -f "$OUT" ] && cmp -s "$TMP" "$OUT"; then
-    echo "gen_funcs.sh: $OUT unchanged"
-else
-    cp "$TMP" "$OUT" && chmod 644 "$OUT"
-    echo "gen_funcs.sh: $OUT rewritten"
-fi
+for pair in "$TMP|$OUT" "$TMPC|$OUTC"; do
+    src=${pair%%|*}
+    dst=${pair#*|}
+    if [ -f "$dst" ] && cmp -s "$src" "$dst"; then
+        echo "gen_funcs.sh: $dst unchanged"
+    else
+        cp "$src" "$dst" && chmod 644 "$dst"
+        echo "gen_funcs.sh: $dst rewritten"
+    fi
+done
